@@ -106,6 +106,26 @@ fn wide_conformance() {
             }
         });
     }
+    // thorough tier only (VP_FALSIFY_LONG=1): one input long enough for the round counter 2n to exceed 16 bits
+    // (n >= 32768 blocks, i.e. >= 524273 bytes); quadratic in the length, about a minute per call
+    if std::env::var("VP_FALSIFY_LONG").ok().as_deref() == Some("1") {
+        let key = rng.bytes(32);
+        let len = 524273 + 7;
+        let x = rng.plain(len);
+        input(&[("key", &key)]);
+        input_add_str("len", &len.to_string());
+        guard("wide-block conformance (long input)", || {
+            let theta: [u32; 8] = r::words::<8>(&key);
+            let mut got = x.clone();
+            let _ = belt_wblock_enc(&mut got, &theta);
+            let mut w = x.clone();
+            r::wblock_enc(&mut w, &theta);
+            check_eq("belt_wblock_enc differs from STB 34.101.31 belt-wblock (long input)", &got[len - 64..].to_vec(), &w[len - 64..].to_vec());
+            let mut back = got.clone();
+            let _ = belt_wblock_dec(&mut back, &theta);
+            check_eq("belt_wblock_dec(belt_wblock_enc(x)) != x (long input)", &back[..64].to_vec(), &x[..64].to_vec());
+        });
+    }
     // shorter input: length error, buffer untouched
     for len in 0..32usize {
         for _ in 0..4 {
